@@ -340,6 +340,27 @@ theorem unknown_field_reported (s : St TxContent) (f : Field) (h : 10 < f.num) :
   unfold applyTx
   split <;> first | rfl | (simp only at *; omega)
 
+/-- the ELECTION branch of `CheckProposerMessage` applies `checkSignatureBasic` to the VRF (and to
+nothing else) before it reads `x.Vrf.PublicKey`, and `checkSignatureBasic` demands presence and the
+48 / 96 element sizes: `MsgC.electionWellFormed` is that test (facts regenerated from bft/msg.go) -/
+theorem election_vrf_check_src :
+    Gen.Proto.electionBasicChecks = ["x.Vrf"] ∧
+    Gen.Proto.src_electionBranch = "if x.Header.Height != p.height { return false, lib.ErrWrongCertHeight(x.Header.Height, p.height) }; if err = checkSignatureBasic(x.Vrf); err != nil { return false, err }; if !bytes.Equal(x.Signature.PublicKey, x.Vrf.PublicKey) { return false, ErrMismatchPublicKeys() }; return" ∧
+    Gen.Proto.src_checkSignatureBasic = "if signature == nil || len(signature.PublicKey) == 0 || len(signature.Signature) == 0 { return ErrPartialSignatureEmpty() }; if len(signature.PublicKey) != crypto.BLS12381PubKeySize { return ErrInvalidPublicKey() }; if len(signature.Signature) != crypto.BLS12381SignatureSize { return ErrInvalidSignatureLength() }; return nil" ∧
+    Gen.Proto.BLS12381PubKeySize = 48 := by
+  decide +kernel
+
+/-- an ELECTION message that passes the test carries a VRF (so the dereference is defined) of a
+48-byte key equal to the sender's and a 96-byte output: oversize or missing elements are refused -/
+theorem election_wellformed_has_vrf (m : MsgC) (k : Bytes) (h : m.electionWellFormed k = true) :
+    ∃ g, m.vrf = some g ∧ g.publicKey = k ∧ g.publicKey.length = 48 ∧ g.signature.length = 96 := by
+  unfold MsgC.electionWellFormed sigBasicOk at h
+  cases hv : m.vrf with
+  | none => simp [hv] at h
+  | some g =>
+    simp only [hv, Bool.and_eq_true, beq_iff_eq] at h
+    exact ⟨g, rfl, h.2, h.1.1, h.1.2⟩
+
 /-- non-vacuity: the honest transaction with one unknown field appended is refused, a group wire type
 is refused, a truncated varint is refused — and the untouched bytes are accepted -/
 example : decodeTx [0x0a, 0x01, 0x61, 0x78, 0x01] = none ∧ decodeTx [0x0b] = none ∧ decodeTx [0x20, 0x80] = none ∧
